@@ -425,9 +425,27 @@ func inboundCase(rt *rapid.T, prop string, f inboundFlags) {
 			if size > 4096+10 {
 				size = 20
 			}
-			if rapid.IntRange(0, 5).Draw(rt, "highID") == 0 {
+			switch rapid.IntRange(0, 6).Draw(rt, "highID") {
+			case 0:
 				nextBase = uint16(rapid.IntRange(0x8000, 0xfff0).Draw(rt, "idBase"))
-			} else {
+			case 1:
+				// an identifier which differs from one in flight in the top bits only
+				nextBase = 1
+				var inflight []uint16
+				h.WithLock(func() {
+					for _, m := range h.Broker.Sess.Inflight {
+						inflight = append(inflight, m.ID)
+					}
+				})
+				if len(inflight) != 0 {
+					id := inflight[rapid.IntRange(0, len(inflight)-1).Draw(rt, "aliasOf")]
+					nextBase = id ^ uint16(rapid.SampledFrom([]int{0x4000, 0x8000, 0xc000}).Draw(rt, "aliasBits"))
+					if nextBase == 0 {
+						nextBase = 1
+					}
+					h.label("inbound-identifier-aliasing-one-in-flight-modulo-0x4000")
+				}
+			default:
 				nextBase = 1
 			}
 			h.brokerSendBase(qos, size, nextBase)
